@@ -34,6 +34,12 @@ pub fn leaves_small() -> Vec<G> {
 
 pub fn leaves_k01() -> Vec<G> {
     let mut v = leaves_small();
+    // token sets / sequences in other container types, with a two-byte (Latin-1) and a four-byte character
+    v.push(G::set(Op::OneOf, "bé").with(|p| p.n = 1));
+    v.push(G::set(Op::NoneOf, "é").with(|p| p.n = 2));
+    v.push(G::set(Op::OneOf, "é𝄞").with(|p| p.n = 4));
+    v.push(G::set(Op::NoneOf, "ab").with(|p| p.n = 6));
+    v.push(G::just_seq("éa").with(|p| p.n = 1));
     v.push(G::set(Op::Select, "bé"));
     v.push(G::leaf(Op::Custom).with(|p| {
         p.n = 1;
